@@ -695,6 +695,12 @@ impl Database {
         self.shared.next_index_id.fetch_add(1, Ordering::AcqRel)
     }
 
+    /// Key under which `value` is looked up in a secondary index. Must be byte-identical to the key
+    /// index maintenance writes for the same value, so it is built by the same encoder.
+    pub(crate) fn encode_index_probe_key(value: &OwnedValue, buf: &mut Vec<u8>) {
+        Self::encode_value_as_key(value, buf);
+    }
+
     pub(crate) fn encode_value_as_key<B: crate::encoding::key::KeyBuffer>(
         value: &OwnedValue,
         buf: &mut B,
@@ -3688,7 +3694,7 @@ impl Database {
                     }
 
                     let mut key_buf: Vec<u8> = Vec::with_capacity(32);
-                    key_value.to_value().encode_to_key(&mut key_buf);
+                    Self::encode_index_probe_key(&key_value, &mut key_buf);
 
                     let mut inner_matches: Vec<Vec<OwnedValue>> = Vec::new();
 
